@@ -105,6 +105,9 @@ def oracle(case):
         an = m.anet(w)
         if abs(an - p["area_net"]) > 0.0101:
             v.append({"what": f"wall {w.get('name')}: area_net={p['area_net']}, gross minus windows is {an}", "key": {"class": "area-net"}})
+        # the element's own net area as the implementation reports it (rounded to the centimetre, checked just above against
+        # gross minus windows): summing the unrounded areas instead would differ by up to 0.005 * multiplier per element
+        an = p["area_net"]
         a += mult * an
         au += mult * an * uu
         c = "ground" if w["bounds"] == "GROUND" else {"TOP": "roofs", "BOTTOM": "floors", "SIDE": "walls"}[m.tilt(w)]
